@@ -31,10 +31,8 @@ Definition inv_check (n : nat) (S Sinv : qmat) : bool :=
   qm_eqb (qmm (Datatypes.S n) S Sinv) (mid q0 q1 (Datatypes.S n)) &&
   qm_eqb (qmm (Datatypes.S n) Sinv S) (mid q0 q1 (Datatypes.S n)).
 
-(* numpy float64 -> int64 cast: truncation toward zero *)
-Definition qc_trunc (a : Qc) : Qc := Q2Qc (inject_Z (Z.quot (Qnum (this a)) (Zpos (Qden (this a))))).
-Definition qresample_affine := resample_affine Qc q0 q1 Qcplus Qcmult qc_eqb qc_trunc.
-Definition qresample_img2img := resample_img2img Qc q0 q1 Qcplus Qcmult qc_eqb qc_trunc.
+Definition qresample_affine := resample_affine Qc q0 q1 Qcplus Qcmult qc_eqb.
+Definition qresample_img2img := resample_img2img Qc q0 q1 Qcplus Qcmult qc_eqb.
 
 Inductive observed :=
 | ObsCall (A : qmat) (b : qvec)      (* matrix, offset handed to affine_transform *)
@@ -73,15 +71,15 @@ Definition scanner_agrees (Fw Am Tw Tv : qmat) : bool :=
   qm_eqb (scanner_tv Qc q0 Qcplus Qcmult Fw Am Tw) Tv.
 
 (* VolumeImg *)
-Definition avi_agrees (S G Sinv Ainv : qmat) (diag : bool) (A : qmat) (d b : qvec) : bool :=
-  match avi_sampler_args Qc q0 q1 Qcplus Qcmult qc_eqb S G Sinv Ainv with
+Definition avi_agrees (S G Sinv : qmat) (diag : bool) (A : qmat) (d b : qvec) : bool :=
+  match avi_sampler_args Qc q0 q1 Qcplus Qcmult qc_eqb S G Sinv with
   | (SFull A', b') => negb diag && qm_eqb A' A && qv_eqb b' b
   | (SDiag d', b') => diag && qv_eqb d' d && qv_eqb b' b
   end.
 Definition viw_agrees (Sinv : qmat) (p coords : qvec) : bool :=
   qv_eqb (values_in_world_coords Qc q0 q1 Qcplus Qcmult Sinv p) coords.
-Definition xyz_agrees (k : nat) (p b nm1 p' b' : Qc) (flipped : bool) : bool :=
-  match xyz_flip_axis Qc q1 Qcplus Qcmult Qcopp qc_neg k p b nm1 with
+Definition xyz_agrees (p b nm1 p' b' : Qc) (flipped : bool) : bool :=
+  match xyz_flip_axis Qc Qcplus Qcmult Qcopp qc_neg p b nm1 with
   | (p2, b2, f2) => qc_eqb p2 p' && qc_eqb b2 b' && Bool.eqb f2 flipped
   end.
 Definition swap_cols_agrees (i j : nat) (M M' : qmat) : bool :=
